@@ -165,7 +165,7 @@ Proof. intros H. break_inv. unfold reset_net. fin. Qed.
 (* arguments a query is entitled to depend on: its own, plus "default" (0) *)
 Definition op_args (o : op) : list nat :=
   match o with
-  | QMainUp a => [a; 0] | QStrahler m => [m; 0] | QClassic m => [m; 0] | QAccuflux d => [d; 0] | _ => [0]
+  | QMainUp a => [a; 0] | QStrahler m => [m; 0] | QClassic m => [m; 0] | QAccuflux d => [d; 0] | QStreamDist m => [m; 0] | _ => [0]
   end.
 
 (* one step: the invariant is preserved and the returned value is fresh w.r.t. the state the query ran on
@@ -187,6 +187,7 @@ Proof.
   - destruct (get_area_good s [0] H) as (A & _ & _ & _ & _ & B); auto.
   - destruct (get_uparea_good s [0] metric H) as (A & _ & _ & _ & _ & B); auto.
   - pose proof (get_seq_good s [data; 0] H) as G. destruct (get_seq s) as [s1 t]. simpl in G. break_inv. fin.
+  - pose proof (get_seq_good s [mask; 0] H) as G. destruct (get_seq s) as [s1 t]. simpl in G. break_inv. fin.
   - pose proof (good_chain s [0] (get_pit s) get_seq (get_pit_good s [0] H) (fun s' I => get_seq_good s' [0] I)) as G.
     destruct (get_pit s) as [s1 t1]. destruct (get_seq s1) as [s2 t2]. destruct G as (A & _ & _ & _ & _ & B). auto.
   - destruct (get_main_good s [0] H) as (A & _ & _ & _ & _ & B); simpl; auto.
